@@ -62,6 +62,30 @@ def impl_res(thunk):
     return r, 'RDecay', None
 
 
+def with_destination(rng, a, fk, ufunc):
+    """the same multiplication / division written INTO an existing Phase: an augmented assignment on a copy, or out= a Phase buffer of
+    either kind (real / imaginary).  The destination receives the value AND the kind of the result.  -> (form, thunk) or None"""
+    form = rng.choice(['plain', 'plain', 'inplace', 'out_real', 'out_imag'])
+    if form == 'plain':
+        return None
+    if form == 'inplace':
+        def th():
+            p = a.copy()
+            if ufunc is np.multiply:
+                p *= fk
+            else:
+                p /= fk
+            return p
+    else:
+        def th():
+            buf = Phase(0.0) if form == 'out_real' else Phase(0.0) * 1j
+            r = ufunc(a, fk, out=buf)
+            if r is not buf:
+                raise AssertionError('out= object not returned')
+            return r
+    return form, th
+
+
 def rand_count(rng):
     k = rng.choice([0, 1, 3, 10, 20, 30, 40, 48, 50, 51])
     n = rng.randint(0, 2 ** k)
@@ -265,6 +289,11 @@ def run(ctx):
             else:
                 th = lambda: a / fk
                 w = ea / Fr(float(f))
+            if order == 'phase_first' and kind in ('pyfloat', 'npfloat'):
+                d = with_destination(rng, a, fk, np.multiply if op == 'mul' else np.divide)
+                if d:
+                    inp['destination'], th = d
+                    ctx.count('destination:' + d[0])
             r, code, err = impl_res(th)
             add_item(f'res_code (op_{op} {ph_lit(a)} {num_lit(float(f))}) ' + (code or f'(RPh {ph_lit(r)})'), inp, repr(r) if code is None else code)
             if code:
@@ -286,6 +315,10 @@ def run(ctx):
                 th = lambda: a / f
                 # x/(i g) = -i x/g ; (i x)/(i g) = x/g
                 w = (ea if imag else -ea) / Fr(g)
+            d = with_destination(rng, a, f, np.multiply if op == 'imag_mul' else np.divide)
+            if d:
+                inp['destination'], th = d
+                ctx.count('destination:' + d[0])
             r, code, err = impl_res(th)
             add_item(f'res_code (op_{"mul" if op == "imag_mul" else "div"} {ph_lit(a)} {num_lit(f)}) ' + (code or f'(RPh {ph_lit(r)})'),
                      inp, repr(r) if code is None else code)
